@@ -52,20 +52,26 @@ def _case(draw):
     cfg["exc"] = draw(st.sampled_from([False, False, True]))
     if v == 1:
         cfg["ret"] = draw(st.sampled_from([0, 0, 1]))
+        if draw(st.sampled_from([False, False, False, True])):
+            cfg["passthrough"] = True
     else:
         cfg["style"] = draw(st.sampled_from(["config", "hand"]))
     routes = pipeline.routes_for(cfg)
     turns = []
     for t in range(draw(st.sampled_from([1, 2, 2, 3, 3, 4]))):
-        turns.append(
-            {
-                "user": draw(pipeline.st_user_text(t)),
-                "route": draw(st.sampled_from(routes)),
-                "in": [draw(pipeline.st_verdict(k)) for k in cfg["in"]],
-                "out": [draw(pipeline.st_verdict(k, p_accept=8)) for k in cfg["out"]],
-                "body": draw(pipeline.st_body()),
-            }
-        )
+        turn = {
+            "user": draw(pipeline.st_user_text(t)),
+            "route": draw(st.sampled_from(routes)),
+            "in": [draw(pipeline.st_verdict(k)) for k in cfg["in"]],
+            "out": [draw(pipeline.st_verdict(k, p_accept=8)) for k in cfg["out"]],
+            "body": draw(pipeline.st_body()),
+        }
+        if t >= 1 and draw(st.sampled_from([False, False, True])):
+            # the user sends, character by character, the text of an earlier turn again (usually the previous one)
+            s = draw(st.sampled_from([t - 1, t - 1, draw(st.integers(0, t - 1))]))
+            turn["user"] = turns[s]["user"]
+            turn["umark"] = turns[s].get("umark", s)
+        turns.append(turn)
     return {"config": cfg, "turns": turns, "api": draw(st.sampled_from(["sync", "async"]))}
 
 
@@ -90,6 +96,35 @@ def enumerate_cases(tier):
                         {"user": f'say "{fakes.mk_user(1)}" $now', "route": "llm", "in": pat, "out": ["accept"], "body": "second answer"},
                     ]
                     yield {"config": cfg, "turns": turns, "api": "sync"}
+    # the same text again: (verdicts of turn 1, verdicts of turn 2 on the identical text), both Colang versions
+    for v in (1, 2):
+        for dialog in (False, True) if v == 1 else (False, True, "llmc"):
+            for exc in (False, True):
+                cfg = {"v": v, "in": ["check", "check"], "out": [], "dialog": dialog, "exc": exc}
+                if v == 2:
+                    cfg["style"] = "hand" if dialog is True else "config"
+                else:
+                    cfg["ret"] = 0
+                A, R1, R2 = ["accept", "accept"], ["reject", "accept"], ["accept", "reject"]
+                for first, again in ((R1, R1), (R2, R2), (R2, A), (A, R1), (A, R2), (A, A)):
+                    text = f"please {fakes.mk_user(0)} tell me"
+                    turns = [
+                        {"user": text, "route": "llm", "in": first, "out": [], "body": "first answer"},
+                        {"user": text, "umark": 0, "route": "llm", "in": again, "out": [], "body": "second answer"},
+                        {"user": text, "umark": 0, "route": "llm", "in": again, "out": [], "body": "third answer"},
+                    ]
+                    yield {"config": cfg, "turns": turns, "api": "sync"}
+    # Colang 1.0 passthrough mode (the LLM gets the raw request) with rewriting rails
+    for dialog in (False, True):
+        for kinds in (["rewrite", "check"], ["both"], ["check", "rewrite", "both"]):
+            cfg = {"v": 1, "in": kinds, "out": ["check"], "dialog": dialog, "exc": False, "ret": 0, "passthrough": True}
+            for pat in (["rewrite"] * len(kinds), ["accept"] * len(kinds), ["rewrite"] * (len(kinds) - 1) + ["reject"]):
+                turns = [
+                    {"user": f"{fakes.mk_user(0)} my secret is x", "route": "llm", "in": pat, "out": ["accept"], "body": "first answer"},
+                    {"user": f"and {fakes.mk_user(1)} again", "route": "next_llm", "in": ["rewrite"] * len(kinds), "out": ["accept"], "body": "second answer"},
+                    {"user": f"and {fakes.mk_user(1)} again", "umark": 1, "route": "llm", "in": pat, "out": ["accept"], "body": "third answer"},
+                ]
+                yield {"config": cfg, "turns": turns, "api": "sync"}
     # hostile user texts, one per conversation, followed by a plain turn (a text must not poison the conversation)
     for v in (1, 2):
         for dialog in (False, True):
@@ -141,9 +176,13 @@ def _check(case, obs):
         labels.append("v2-" + cfg.get("style", "config"))
     if "self" in cfg["in"]:
         labels.append("shipped-self-check-input")
+    if cfg.get("passthrough"):
+        labels.append("passthrough" + ("+dialog" if cfg["dialog"] else ""))
     nt = False
     rewritten_before = []  # (turn, original marker) of earlier turns whose text was rewritten
     dead_after = None
+    raw_mode = bool(cfg.get("passthrough")) and not cfg["dialog"]  # the LLM is handed the caller's message list
+    sent_plain, sent_any = set(), set()  # markers of texts that went through un-rewritten / that were sent at all
     for t, (spec, o) in enumerate(zip(case["turns"], obs.turns)):
         if o["raised"]:
             if pipeline.EVENT_BUDGET in o["raised"]:
@@ -209,11 +248,14 @@ def _check(case, obs):
             elif len(verdicts) >= 1:
                 labels.append("all-accept")
             if v == 1:
-                # (4) every later stage sees only the rewritten text (statement: Colang 1.0)
+                # (4) every later stage sees only the rewritten text (statement: Colang 1.0).  The original marker may
+                # legitimately be around when an earlier turn sent the same text and it was not rewritten then
+                # (history), or - raw passthrough - when an earlier turn sent it at all (the caller's own messages).
+                orig_elsewhere = m["orig"] in sent_plain or (raw_mode and m["orig"] in sent_any)
                 for c in o["llm"]:
                     if c["task"] == "self_check_input":
                         continue  # its text is checked as part of the chain above
-                    if m["final"] != m["orig"] and m["orig"] in str(c["prompt"]):
+                    if m["final"] != m["orig"] and not orig_elsewhere and m["orig"] in str(c["prompt"]):
                         raise Violation(
                             "original-text-in-prompt",
                             f"{what}: the {c['task']} prompt contains the pre-rewrite user text ({m['orig']}); rewritten text carries {m['final']}",
@@ -221,12 +263,28 @@ def _check(case, obs):
                         )
                     if c["task"] in ("generate_user_intent", "generate_bot_message", "general", "self_check_output") and m["final"] not in str(c["prompt"]):
                         raise Violation("user-text-missing-in-prompt", f"{what}: the {c['task']} prompt does not contain the current user text ({m['final']})", {"turn": t})
+                    if c.get("messages"):
+                        # the LLM input was a message list (passthrough): its last message is this turn's user message
+                        last = str(c["messages"][-1].get("content"))
+                        if m["final"] not in last or (m["final"] != m["orig"] and m["orig"] in last):
+                            raise Violation(
+                                "original-text-in-prompt",
+                                f"{what}: the last message handed to the LLM is {last[:100]!r}; the input rails left the text carrying {m['final']}",
+                                {"turn": t},
+                            )
+                        labels.append("llm-input-is-message-list")
                 for e in o["trace"]:
                     if e["cat"] == "out" and e.get("user_ctx") is not None and m["final"] not in str(e["user_ctx"]):
                         raise Violation("original-text-in-context", f"{what}: an output rail saw $user_message = {str(e['user_ctx'])[:80]!r}", {"turn": t})
-        # (5) later turns never see the original of a rewritten earlier message (Colang 1.0)
-        if v == 1:
+        # (5) later turns never see the original of a rewritten earlier message (Colang 1.0; not in raw passthrough
+        #     mode, where the LLM is handed the caller's own message list)
+        if m["final"] == m["orig"]:
+            sent_plain.add(m["orig"])
+        sent_any.add(m["orig"])
+        if v == 1 and not raw_mode:
             for s, orig in rewritten_before:
+                if orig in sent_plain:
+                    continue
                 for c in o["llm"]:
                     if orig in str(c["prompt"]):
                         raise Violation(
@@ -236,6 +294,12 @@ def _check(case, obs):
                         )
             if "rewrite" in verdicts:
                 rewritten_before.append((t, m["orig"]))
+        if "umark" in spec:
+            labels.append("repeated-user-text")
+            prev = pipeline.model_input(cfg, case["turns"][t - 1], t - 1)
+            if spec["user"] == case["turns"][t - 1]["user"]:
+                labels.append("same-text-as-previous-turn:" + ("rejected" if prev["blocked"] is not None else "passed") + "-then-" + ("rejected" if m["blocked"] is not None else "passed"))
+                nt = True
         labels.append("route=" + (spec["route"] if cfg["dialog"] else "general"))
     return ok(nt=nt, labels=sorted(set(labels)), view=pipeline.view(case, obs))
 
